@@ -25,6 +25,12 @@ CHECKS = {
  "C20": dict(cat="exploration", sec="4 C20", tech="counter-delta monitor through a recording MetricFactory compared with the reference model's verdict (runtime monitoring)",
    text="A recording metric factory is installed before the first witness exists; around every Update of generated histories (all stores, storage faults in ~6% of requests) the delta of all four counters for all labels of the unit is compared with the reference model: attempt iff known log, success iff accepted, invalid-consistency iff bad proof, inconsistent iff same-size different root, nothing else; totals are cross-checked per history. Floors of 200 per verdict class incl. storage failure.",
    note="IDs are unique per unit so process-wide counters are attributable under parallel units; ambiguous/out-of-claim requests judged on attempt+success only."),
+ "C10": dict(cat="exploration", sec="4 C10", tech="HTTP response monitor against the reference model, requests through the real handler + real adapter + real witness (runtime monitoring)",
+   text="The real add-checkpoint handler (built as FeedBastion builds it, via a verif-tagged shim) over the real witness through the real witnessAdapter is driven by sequences of 10-40 generated requests per witness (every verdict class, plus malformed bodies); status, Content-Type, body and witness state after each request are judged against kit/refwitness: 200 => every body line verifies under the witness's published key over the submitted text and the witness holds the checkpoint; 409-stale => text/x.tlog.size + true size; non-200 => state unchanged; 429 => Update not invoked (counting wrapper). Rate limiter judged at 0, 1e9 and by inequalities on measured time at 2/s and 5/s.",
+   note="In-process ServeHTTP only: the TLS 1.3 + HTTP/2 reverse connection and the 16 KiB cap are not covered by this check (see DESIGN.md limits). Fractional rate limits not judged."),
+ "C11": dict(cat="exploration", sec="4 C11", tech="round-trip and differential monitor of the real parsers against an independent writer/reader (runtime monitoring)",
+   text="Bodies from an independent writer (old sizes incl. 0, 2^k+-1, 2^64-1; 0-64 hashes of 1-64 bytes; checkpoint bytes incl. blank lines, CR, non-UTF-8, none) must parse to exactly what was written; bodies of the three unambiguous malformed classes must be refused; Proof.Marshal/Unmarshal round-trips every generated list incl. empty; bodies posted by the repository's own writer (cmd/feedbastion, captured through an overlaid in-package test) parse back; a differential sweep of mutated bodies is judged against a reference reader where its verdict is definite.",
+   note="Open variants (leading zeros, several spaces/tab, CRLF, >4 KiB lines) are only judged by the weak oracle."),
 }
 
 NOT_YET = "check not built yet in this session (planned, see DESIGN.md section 4)"
